@@ -21,16 +21,14 @@ structure Leaf where
   top : Bool
   deriving Repr, DecidableEq
 
-def leavesNested (path : List String) (inh : Bool) (d : Nat) : Tree → List Leaf
+/-- the leaves in depth-first declaration order (same recursion scheme as `walk`) -/
+def leaves (top : Bool) (path : List String) (inh : Bool) (d : Nat) : Tree → List Leaf
   | .nil => []
-  | .field f rest => ⟨path, d, f, inh, false⟩ :: leavesNested path inh d rest
-  | .embed n _ _ _ body rest =>
-    leavesNested (path ++ [n]) inh (d + 1) body ++ leavesNested path inh d rest
+  | .field f rest => ⟨path, d, f, if top then f.newMark else inh, top⟩ :: leaves top path inh d rest
+  | .embed n _ _ nm body rest =>
+    leaves false (path ++ [n]) (if top then nm else inh) (d + 1) body ++ leaves top path inh d rest
 
-def leavesTop : Tree → List Leaf
-  | .nil => []
-  | .field f rest => ⟨[], 0, f, f.newMark, true⟩ :: leavesTop rest
-  | .embed n _ _ nm body rest => leavesNested [n] nm 1 body ++ leavesTop rest
+def leavesTop (t : Tree) : List Leaf := leaves true [] false 0 t
 
 /-- every member name with its depth (fields and embedded-type names): Go's selector universe -/
 def members (d : Nat) : Tree → List (String × Nat)
